@@ -297,97 +297,50 @@ namespace smt
 
     SMT_EXPORT std::pair<I, I> idl_theory::bounds(const lin &l) const
     {
-        I c_lb(0);
-        I c_ub(0);
+        // the image of the interval [lb, ub] through c * x + k (c != 0), infinite bounds stay infinite..
+        const auto image = [](const I &lb, const I &ub, const I &c, const I &k)
+        {
+            const I c_lb = c > 0 ? lb : ub, c_ub = c > 0 ? ub : lb;
+            return std::make_pair((c_lb <= -inf() || c_lb >= inf()) ? -inf() : c_lb * c + k, (c_ub <= -inf() || c_ub >= inf()) ? inf() : c_ub * c + k);
+        };
 
+        if (!is_integer(l.known_term))
+            throw std::invalid_argument("not a valid integer difference logic expression..");
         switch (l.vars.size())
         {
         case 0:
-            if (!is_integer(l.known_term))
-                throw std::invalid_argument("not a valid integer difference logic constraint..");
-            c_lb += l.known_term.numerator();
-            c_ub += l.known_term.numerator();
-            break;
+            return std::make_pair(l.known_term.numerator(), l.known_term.numerator());
         case 1:
-        {
-            auto it = l.vars.cbegin();
-            if (!is_integer(it->second) | !is_integer(l.known_term))
-                throw std::invalid_argument("not a valid integer difference logic constraint..");
-            c_lb += lb(it->first) * it->second.numerator() + l.known_term.numerator();
-            c_ub += ub(it->first) * it->second.numerator() + l.known_term.numerator();
-            break;
+        { // c * x + k..
+            const auto [v, c] = *l.vars.cbegin();
+            if (!is_integer(c))
+                throw std::invalid_argument("not a valid integer difference logic expression..");
+            return image(lb(v), ub(v), c.numerator(), l.known_term.numerator());
         }
         case 2:
-        {
-            const auto expr = l / l.vars.cbegin()->second;
-            auto it = expr.vars.cbegin();
-            [[maybe_unused]] const auto [v0, c0] = *it++;
+        { // c * (x - y) + k..
+            auto it = l.vars.cbegin();
+            const auto [v0, c0] = *it++;
             const auto [v1, c1] = *it;
-            if (!is_integer(c1) || c1.numerator() != -1 || !is_integer(l.known_term))
+            if (c0 != -c1 || !is_integer(c0))
                 throw std::invalid_argument("not a valid integer difference logic expression..");
-            const auto dist = distance(v1, v0);
-            c_lb += dist.first + expr.known_term.numerator();
-            c_ub += dist.second + expr.known_term.numerator();
-            break;
+            const auto dist = distance(v1, v0); // the bounds of v0 - v1..
+            return image(dist.first, dist.second, c0.numerator(), l.known_term.numerator());
         }
         default:
             throw std::invalid_argument("not a valid integer difference logic expression..");
         }
-        return std::make_pair(c_lb, c_ub);
     }
 
-    SMT_EXPORT std::pair<I, I> idl_theory::distance(const lin &from, const lin &to) const
-    {
-        lin expr = from - to;
-        switch (expr.vars.size())
-        {
-        case 0:
-            return std::make_pair(expr.known_term.numerator(), expr.known_term.numerator());
-        case 1:
-        {
-            expr = expr / expr.vars.cbegin()->second;
-            if (!is_integer(expr.known_term))
-                throw std::invalid_argument("not a valid integer difference logic constraint..");
-            return distance(expr.vars.cbegin()->first, 0);
-        }
-        case 2:
-        {
-            expr = expr / expr.vars.cbegin()->second;
-            auto it = expr.vars.cbegin();
-            const auto [v0, c0] = *it++;
-            assert(c0 == rational::ONE);
-            const auto [v1, c1] = *it;
-            if (c1 != -rational::ONE || !is_integer(expr.known_term))
-                throw std::invalid_argument("not a valid real difference logic constraint..");
-            return distance(v0, v1);
-        }
-        default:
-            throw std::invalid_argument("not a valid real difference logic constraint..");
-        }
-    }
+    SMT_EXPORT std::pair<I, I> idl_theory::distance(const lin &from, const lin &to) const { return bounds(to - from); }
 
     SMT_EXPORT bool idl_theory::equates(const lin &l0, const lin &l1) const
     {
-        if (l0.vars.empty() && l1.vars.empty())
-            return l0.known_term == l1.known_term;
-        else if (l0.vars.empty() && l1.vars.size() == 1)
-        {
-            const auto [lb, ub] = bounds(l1);
-            return rational(lb) <= l0.known_term && rational(ub) >= l0.known_term;
-        }
-        else if (l0.vars.size() == 1 && l1.vars.empty())
-        {
-            const auto [lb, ub] = bounds(l0);
-            return rational(lb) <= l1.known_term && rational(ub) >= l1.known_term;
-        }
-        else if (l0.vars.size() == 1 && l1.vars.size() == 1)
-        {
-            const auto [lb, ub] = distance(l0.vars.cbegin()->first, l1.vars.cbegin()->first);
-            const auto kt = l0.known_term - l1.known_term;
-            return lb + kt <= rational::ZERO && ub + kt >= rational::ZERO;
-        }
-        else
-            throw std::invalid_argument("not a valid comparison between real difference logic expressions..");
+        const lin diff = l0 - l1;
+        if (diff.vars.size() > 2 || (diff.vars.size() == 2 && diff.vars.cbegin()->second != -diff.vars.crbegin()->second))
+            throw std::invalid_argument("not a valid comparison between difference logic expressions..");
+        const auto [lb, ub] = bounds(diff);
+        return lb <= 0 && ub >= 0; // zero is a possible value of the difference..
     }
 
     bool idl_theory::propagate(const lit &p) noexcept
